@@ -9,8 +9,10 @@ import (
 	"net/http"
 	"os"
 	"strconv"
+	"strings"
 	"sync"
 
+	"github.com/google/pprof/internal/driver"
 	"github.com/google/pprof/profile"
 	"github.com/google/pprof/xverif/pp"
 )
@@ -39,7 +41,67 @@ func messages(n int) {
 	pp.RunNoCapture(pp.Req{Flags: map[string]string{"top": "true", "output": "out"}, Args: args, NoFetch: true, RT: rt{"m"}, StdUI: true})
 }
 
+// options: xhelper20 options <setters> <mode> <rounds>: ONE interactive session lists the options ("o", a pure read
+// of the option store) and prints a report while <setters> goroutines set option defaults through the
+// extension entry point driver.SetVariableDefault (mode 0: granularity=<choice>, 1: <choice>=true, 2: mixed with
+// nodecount and focus). Built with the race detector; stdout carries the listings.
+func options(setters, mode, rounds int) {
+	f := &profile.Function{ID: 1, Name: "main", SystemName: "main", Filename: "main.go"}
+	l := &profile.Location{ID: 1, Address: 0x10, Line: []profile.Line{{Function: f, Line: 7}}}
+	p := &profile.Profile{SampleType: []*profile.ValueType{{Type: "samples", Unit: "count"}}, PeriodType: &profile.ValueType{Type: "cpu", Unit: "nanoseconds"}, Period: 1,
+		Function: []*profile.Function{f}, Location: []*profile.Location{l}, Sample: []*profile.Sample{{Location: []*profile.Location{l}, Value: []int64{1}}}}
+	choices := []string{"lines", "functions", "files", "addresses", "filefunctions"}
+	var wg sync.WaitGroup
+	start, done := make(chan struct{}), make(chan struct{})
+	for i := 0; i < setters; i++ {
+		wg.Add(1)
+		go func(i int) {
+			defer wg.Done()
+			<-start
+			for r := 0; ; r++ {
+				if r >= rounds {
+					select {
+					case <-done:
+						return
+					default:
+					}
+				}
+				c := choices[(i+r)%len(choices)]
+				switch {
+				case mode == 0 || (mode == 2 && r%3 == 0):
+					driver.SetVariableDefault("granularity", c)
+				case mode == 1 || (mode == 2 && r%3 == 1):
+					driver.SetVariableDefault(c, "true")
+				default:
+					driver.SetVariableDefault("nodecount", fmt.Sprint(10+r%5))
+					driver.SetVariableDefault("focus", []string{"main", "ma.n", ""}[r%3])
+				}
+			}
+		}(i)
+	}
+	close(start)
+	res := pp.RunNoCapture(pp.Req{Args: []string{"src"}, Sources: map[string]*pp.Source{"src": {Prof: p}}, Lines: []string{"o", "o", "top >out", "o"}})
+	close(done)
+	wg.Wait()
+	prints, _ := res.UI.Snapshot()
+	fmt.Printf("%s\n==== report\n%s\n", strings.Join(prints, ""), res.Out("out"))
+	if res.Err != nil || res.Panic != "" {
+		fmt.Fprintln(os.Stderr, "xhelper20: session:", res.Err, res.Panic)
+		os.Exit(1)
+	}
+}
+
 func main() {
+	if len(os.Args) >= 4 && os.Args[1] == "options" {
+		n, _ := strconv.Atoi(os.Args[2])
+		m, _ := strconv.Atoi(os.Args[3])
+		r := 20
+		if len(os.Args) >= 5 {
+			r, _ = strconv.Atoi(os.Args[4])
+		}
+		options(n, m, r)
+		return
+	}
 	if len(os.Args) >= 3 && os.Args[1] == "messages" {
 		n, _ := strconv.Atoi(os.Args[2])
 		messages(n)
